@@ -728,12 +728,12 @@ class NPProxy:
 
     def zeros_like(self, a, dtype=None, **k):
         if Session.active and is_objarr(a) and dtype is None:
-            return self.zeros(_np.shape(a))
+            return self.zeros(k.get("shape") if k.get("shape") is not None else _np.shape(a))
         return _np.zeros_like(a, dtype=dtype, **k)
 
     def ones_like(self, a, dtype=None, **k):
         if Session.active and is_objarr(a) and dtype is None:
-            return self.ones(_np.shape(a))
+            return self.ones(k.get("shape") if k.get("shape") is not None else _np.shape(a))
         return _np.ones_like(a, dtype=dtype, **k)
 
     def array(self, obj, dtype=None, **k):
